@@ -2,12 +2,13 @@ CONSTANTS
   N = 4
   MaxKids = 1
   MaxEdges = 4
-  Kinds = {"ptr", "typedef"}
+  Kinds = {"ptr"}
   AllowDecl = FALSE
   GraphClass = "any"
   OrderClass = "any"
   CycleCheck = "pair"
   Pass2Cancel = "fresh"
+  Outermost = "flush"
   PropagateDespiteCycle = FALSE
 SPECIFICATION Spec
 CHECK_DEADLOCK FALSE
